@@ -1028,12 +1028,15 @@ def r_dispatch_needs_extent_analysis(ck, P, rid='C04-R19'):
     if not A:
         raise AnalysisBroken('%s: the extent analysis was not found' % rid)
     # wrappers: functions that return the result of a call to it
-    for f in P.functions():
-        if f in A:
-            continue
-        cs = [c for c in f.calls() if isinstance(c.callee, str) and P.resolve(f, c.callee) in A]
-        if cs and any(t.a and t.a[0][0] == 'v' and t.a[0][1] == cs[0].i for t in f.rets()):
-            A = A | {f}
+    grew = True
+    while grew:
+        grew = False
+        for f in P.functions():
+            if f in A:
+                continue
+            cs = [c for c in f.calls() if isinstance(c.callee, str) and P.resolve(f, c.callee) in A]
+            if cs and any(t.a and t.a[0][0] == 'v' and t.a[0][1] in {c.i for c in cs} for t in f.rets()):
+                A = A | {f}; grew = True
     n = 0
     for f in P.functions():
         if not any(isinstance(c.callee, str) and c.callee == '_pixman_implementation_lookup_composite' for c in f.calls()):
